@@ -1,5 +1,7 @@
 package pongo2
 
+import "fmt"
+
 type tagCycleValue struct {
 	node  *tagCycleNode
 	value *Value
@@ -47,7 +49,9 @@ func (node *tagCycleNode) Execute(ctx *ExecutionContext, writer TemplateWriter) 
 		t.value = val
 
 		if !t.node.silent {
-			writer.WriteString(val.String())
+			if err := writeCycleValue(ctx, writer, item, val); err != nil {
+				return err
+			}
 		}
 	} else {
 		// Regular call
@@ -61,10 +65,27 @@ func (node *tagCycleNode) Execute(ctx *ExecutionContext, writer TemplateWriter) 
 			ctx.Private[node.asName] = cycleValue
 		}
 		if !node.silent {
-			writer.WriteString(val.String())
+			if err := writeCycleValue(ctx, writer, item, val); err != nil {
+				return err
+			}
 		}
 	}
 
+	return nil
+}
+
+// writeCycleValue writes the current cycle value, escaped like a {{ variable }}
+// would be.
+func writeCycleValue(ctx *ExecutionContext, writer TemplateWriter, item IEvaluator, val *Value) *Error {
+	_, isStringer := val.Interface().(fmt.Stringer)
+	if ctx.Autoescape && !val.safe && (val.IsString() || isStringer) && !item.FilterApplied("safe") {
+		var err *Error
+		val, err = ApplyFilter("escape", val, nil)
+		if err != nil {
+			return err
+		}
+	}
+	writer.WriteString(val.String())
 	return nil
 }
 
